@@ -16,6 +16,9 @@ class PlanStep:
         if type(self) != type(other):
             return False
 
+        if set(vars(self)) - {'result_data'} != set(vars(other)) - {'result_data'}:
+            return False
+
         for k in vars(self):
             # skip result comparison
             if k == 'result_data':
